@@ -46,6 +46,27 @@ def correspond(ctx):
             ctx.count("kind_" + ("one" if len(p[1]) == 1 else ("adjacent" if abs(p[1][1] - p[1][0]) == 1 else "longrange")))
         if isinstance(got, str) or len(got) != len(m) or any(not (abs(a - b) <= 1e-9) for a, b in zip(got, m)):
             ctx.mismatch("create_probability_distribution vs NoiseAttrib.probabilities", desc, got, m)
+    # the dissipation sweep: every process damped once, with its own strength, in the modelled order
+    dc, de, di = [], [], []
+    for k in range(ctx.scale(60, 1200)):
+        dseed, dL = int(ctx.rng.integers(0, 2**31)), int(ctx.rng.integers(2, 6))
+        desc, order, err, dev, expr = lottery.dissipation_case(np.random.default_rng(dseed), dL)
+        desc = {**desc, "seed": dseed}
+        dc.append(desc)
+        di.append((order, err, dev))
+        de.append(expr)
+    dvals = common.coq_eval_sharded(lottery.HEADER, de, tag="c01d")
+    for desc, (order, err, dev), m in zip(dc, di, dvals):
+        names = [p[0] for p in desc["processes"]]
+        rep = any(names.count(nm_) > 1 and nm_ not in lottery.PAULI_NAMES for nm_ in names)
+        ctx.case(nontrivial_key=("diss", str(desc)) if rep or any(len(p[1]) == 2 for p in desc["processes"]) else None, validated=True)
+        ctx.count("dissipation_sweeps")
+        ctx.count("dissipation_repeated_nonpauli_name" if rep else "dissipation_distinct_names")
+        if err or order != list(m):
+            ctx.mismatch("damping operators contracted by apply_dissipation (process positions, in order) vs NoiseAttrib.damp_schedule", desc, err or order, list(m), key="dissipation")
+        if dev is not None and dev > 1e-9:
+            ctx.violation("dissipation", f"apply_dissipation(dt={desc['dt']}) differs from prod_k exp(-dt/2 gamma_k L_k^+L_k) applied to the dense state by {dev:.3e} "
+                          f"(processes {desc['processes']})", {"oracle": "dissipation", **desc})
     # forced index -> applied process
     chosen_process_correspondence(ctx)
     # pipeline words with noise (no schedule)
@@ -211,6 +232,9 @@ def search(ctx):
 
 def replay(ctx, data):
     rp = data.get("replay", data)
+    if rp.get("oracle") == "dissipation":
+        _, _, err, dev, _ = lottery.dissipation_case(np.random.default_rng(rp["seed"]), rp["L"])
+        return err or (f"apply_dissipation differs from the dense product of exponentials by {dev:.3e}" if dev > 1e-9 else None)
     if rp.get("oracle") == "tree":
         return tree_oracle(rp["args"])
     if rp.get("oracle") == "chosen":
